@@ -27,7 +27,7 @@ def level_domain(ck, agg, nn):
     n = 0
     for level in (None, -3, -1, 0, 1, 2, 3, 4, 5, 9):
         n += 1
-        st, node = nn.fresh(fields={"_net_lvl": 2, "_addr": 0o15, "_frag_enabled": True, "max_message_length": 144})
+        st, node = nn.fresh(fields={net.FN("_net_lvl"): 2, net.FN("_addr"): 0o15, net.FN("_frag_enabled"): True, "max_message_length": 144})
         msg = Bytes([(("param", "message"), Const(5))], "bytes", origin=("param", "message"))
         outs = nn.run(f_mc, node, [msg, Const(7)] + ([Const(level)] if level is not None else []), st)
         want = 2 if level is None else max(0, min(level, T.MAX_LEVEL))
@@ -56,14 +56,14 @@ def level_domain(ck, agg, nn):
     nn.model.opaque.pop(f_write.qualname, None)
     for lvl in (-2, 0, 1, 3, 4, 5, 8):
         n += 1
-        st, node = nn.fresh(fields={"_net_lvl": 2})
+        st, node = nn.fresh(fields={net.FN("_net_lvl"): 2})
         outs = nn.run(f_set, node, [Const(lvl)], st)
         want = max(0, min(lvl, T.MAX_LEVEL))
         for out in outs:
             if out.kind != "return":
                 agg.add("R14.1", f_set, "multicast_level setter does not raise", False, "raises %s" % out.value.exc)
                 continue
-            got = const_of(norm(out.state.heap[node.ident].fields.get("_net_lvl")))
+            got = const_of(norm(out.state.heap[node.ident].fields.get(net.FN("_net_lvl"))))
             agg.add("R14.1", f_set, "multicast_level is clamped to 0..4", got == want, "multicast_level = %d stores %r" % (lvl, got))
             pa = [e for e in out.trace if e.kind == "pipe-address"]
             ok = len(pa) == 1 and const_of(norm(pa[0].data[0])) == lvl_addr(want) and const_of(norm(pa[0].data[1])) == 0
@@ -128,8 +128,8 @@ def relay(ck, agg, nn):
                 for lvl in (0, 1, 2, 3, 4):
                     for addr in (0o1, 0o4444):
                         n += 1
-                        st, node = nn.fresh(frame_pins={"message_type": mtype, "to_node": MCAST}, fields={"allow_multicast": am, "_relay_enabled": relay_on, "_net_lvl": lvl, "_addr": addr})
-                        outs = nn.run(f, node, [Const(mtype)], st)
+                        st, node = nn.fresh(frame_pins={"message_type": mtype, "to_node": MCAST}, fields={"allow_multicast": am, net.FN("_relay_enabled"): relay_on, net.FN("_net_lvl"): lvl, net.FN("_addr"): addr})
+                        outs = nn.run(f, node, net.handler_args(f, mtype), st)
                         label = "multicast frame type %d at level %d (allow_multicast=%r, relay=%r, addr=%s)" % (mtype, lvl, am, relay_on, oct(addr))
                         for out in outs:
                             if out.kind != "return":
@@ -213,6 +213,9 @@ def pipe_address(ck, agg, nn):
                         agg.add("R14.4", f, "the shared pipe-0 address of a level depends on the node address only through its number of digits", not dep,
                                 "pipe 0 with %d digit(s): bytes depend on digit(s) %r" % (iters, sorted(dep)))
                         c = [const_of(norm(b)) for b in items]
+                        if iters in level_addrs and level_addrs[iters] != tuple(c):
+                            agg.add("R14.4", f, "all nodes with the same number of address digits share one pipe-0 address", False,
+                                    "level %d: some addresses give %r, others %r - nodes of one level listen on different multicast addresses" % (iters, level_addrs[iters], tuple(c)))
                         level_addrs[iters] = tuple(c)
                         agg.add("R14.4", f, "a level address is the prefix with one byte taken from address_suffix", c[0] == 0xCC and c[1] in (0xC3, 0x3C, 0x33, 0xCE, 0x3E, 0xE3) and c[2:] == [0xCC] * 3,
                                 "level %d address bytes %r" % (iters, c))
